@@ -487,3 +487,44 @@ func vecName(sc *env.Script) string {
 	}
 	return strings.Join(parts, ",")
 }
+
+// ---------------------------------------------------------------------------------------
+// tag-focused programs (C15)
+
+func tagPrograms() []*Program {
+	okbad := func(step string) OneOf {
+		return OneOf{Disc: "kind", Opts: []Field{{"ok", E("$.steps." + step + ".outputs.success")}, {"bad", E("$.steps." + step + ".outputs.error")}}}
+	}
+	return []*Program{
+		progOptional(), progSoftOptional(), progOptionalInput(), progOneOf(), progOneOf2(), progEnabled(), progSoftOptionalDet(),
+		{Name: "opt3", Steps: []Step{pstep("a", O("v", E("$.input.n"))), pstep("b", O("v", I(1))), pstep("c", O("v", I(2)))},
+			Outputs: []Output{{"success", O("r", E(sv("b")), "w1", Opt{true, sv("a")}, "w2", Opt{true, sv("c")}, "s1", Opt{false, ss("a")})}}},
+		{Name: "optnested", Steps: []Step{pstep("a", O("v", E("$.input.n"))), pstep("b", O("v", I(1)))},
+			Outputs: []Output{{"success", O("r", E(sv("b")), "m", O("w", Opt{true, sv("a")}, "k", Str("x")), "l", List{[]Node{O("x", Opt{true, ss("a")}, "y", I(1))}})}}},
+		{Name: "oneofnested", Steps: []Step{pstep("a", O("v", E("$.input.n"))), pstep("b", O("v", I(3)))},
+			Outputs: []Output{{"success", O("r", OneOf{Disc: "outer", Opts: []Field{
+				{"first", O("inner", okbad("a"))},
+				{"second", E("$.steps.a.crashed.error")},
+			}}, "q", E(sv("b")))}}},
+		{Name: "oneoflist", Steps: []Step{pstep("a", O("v", E("$.input.n"))), pstep("b", O("v", I(3)))},
+			Outputs: []Output{{"success", O("l", List{[]Node{okbad("a"), okbad("b")}})}}},
+		{Name: "softinput", Steps: []Step{pstep("a", O("v", E("$.input.n"))), pstep("c", O("v", I(2), "s", Opt{false, ss("a")}))},
+			Outputs: []Output{{"success", O("r", E(sv("c")), "s", E(ss("c")))}}},
+		{Name: "waitoptdisabled", Steps: []Step{
+			{ID: "a", Input: O("v", E("$.input.n")), Enabled: E("$.input.flag")},
+			pstep("b", O("v", I(1)))},
+			Outputs: []Output{{"success", O("r", E(sv("b")), "w", Opt{true, sv("a")}, "d", OrDisabled{"$.steps.a.outputs.success"})}}},
+		{Name: "optinwaitfor", Steps: []Step{
+			pstep("a", O("v", E("$.input.n"))),
+			{ID: "c", Input: O("v", I(2)), WaitFor: O("x", Opt{true, "$.steps.a.outputs.success"})}},
+			Outputs: []Output{{"success", O("r", E(sv("c")))}}},
+	}
+}
+
+func tagInputs(p *Program) []map[string]any {
+	switch p.Name {
+	case "enabled", "waitoptdisabled":
+		return []map[string]any{{"n": 5, "flag": true}, {"n": 5, "flag": false}}
+	}
+	return []map[string]any{{"n": 5}}
+}
